@@ -14,7 +14,7 @@ ASSUME = ["addresses are IPv4; ScanNetwork masks are 0..32 (the coordinator vali
 def correspondence(ctx):
     th = ctx.tier == "thorough"
     WC.world_suite(ctx, "C02", tags={"nopre"}, walks_per_spec=4 if th else 1, n_generated=30 if th else 8,
-                   n_steps=150 if th else 70, perturb=0.3, resets=0, n_agents=(1, 3), shared_every=3)
+                   n_steps=150 if th else 70, perturb=0.3, resets=25, n_agents=(1, 3), shared_every=3)
     ctx.assumptions += ASSUME
 
 
